@@ -1029,12 +1029,12 @@ def dusch_case(res, case):
 
 
 def dusch_cases():
-    Q = [np.eye(6), plane_rot(6, 0, 3, np.pi / 6), plane_rot(6, 1, 4, np.pi / 4) @ plane_rot(6, 0, 3, np.pi / 6)]
+    Q = [np.eye(6), plane_rot(6, 0, 3, np.pi / 6), plane_rot(6, 1, 4, np.pi / 4) @ plane_rot(6, 0, 3, np.pi / 6), plane_rot(6, 0, 1, np.pi / 6) @ plane_rot(6, 0, 3, np.pi / 6)]
     masses = [(1.0, 1.0), (12.0, 1.008), (11.0093, 1.0078)]
     base = np.array([0.0, 0.0, 0.0, 1.2, 0.0, 0.0])
     out = []
     for M, wfs in ((1, [(1000.0,), (500.0,), (3000.0,)]), (2, FREQ2)):
-        for a, b in itertools.product(range(3), repeat=2):
+        for a, b in itertools.product(range(len(Q)), repeat=2):
             for m1, m2 in masses:
                 for dx0, dx3 in itertools.product((0.0, 0.1, -0.2), repeat=2):
                     rf = base.copy()
